@@ -321,6 +321,15 @@ func genLdapPlan(r *rand.Rand, tier string) *vfPlan {
 				add(vfStep{Op: "outage"})
 			}
 			add(vfStep{Op: "login", Sess: pick(r, vfSessNames), User: u, B: "form"})
+		case x < 84:
+			// a confirmed login is mirrored to the cache database; the password changes and the old one is rejected (its
+			// record leaves the primary); the directory goes away before the next synchronisation mirrors the removal
+			add(vfStep{Op: "login", Sess: pick(r, vfSessNames), User: u, B: "form"})
+			add(vfStep{Op: "sync"})
+			add(vfStep{Op: "dir_setpw", User: u, N: int64(i)})
+			add(vfStep{Op: "login", Sess: pick(r, vfSessNames), User: u, A: "old", B: "form"})
+			allDown(pick(r, []string{"down", "refuse", "error"}))
+			add(vfStep{Op: "login", Sess: pick(r, vfSessNames), User: u, A: "old", B: pick(r, []string{"form", "basic"})})
 		case x < 85:
 			add(vfStep{Op: "sync"})
 		case x < 89:
